@@ -2,8 +2,10 @@ CONSTANTS
     MaxN = 2
     Universe = "ancillary"
     UnpackStaged = FALSE
+    ListedMustBeRegular = FALSE
     ManifestHashInjective = FALSE
     ExcuseImmArchive = TRUE
+    ExcuseAncLink = TRUE
     ExcuseMerged = FALSE
 SPECIFICATION Spec
 INVARIANTS OnlyAllowed
